@@ -54,3 +54,21 @@ def main():
 
 if __name__ == "__main__":
     main()
+
+def test_bits():
+    b = Lin.atom(("byte", "D", lin(0).key()))
+    sl = Lin.atom(("sl", b.key(), 5, 6))
+    m64, m32, d64 = MOD(b, 64), MOD(b, 32), DIV(b, 64)
+    # P bit set  <=>  (b mod 64) >= 32
+    assert entails([ne(sl.scale(32), 0)], flit(ge(m64, 32)))
+    assert entails([eq(sl, 0)], flit(lt(m64, 32)))
+    assert entails([ge(m64, 32)], flit(eq(sl, 1)))
+    # version 2  <=> 128 <= b <= 191
+    assert entails([eq(d64, 2)], f_and(flit(ge(b, 128)), flit(le(b, 191))))
+    assert entails([ge(b, 128), le(b, 191)], flit(eq(d64, 2)))
+    # count is b mod 32
+    assert entails([eq(m32, 31), eq(d64, 2), eq(sl, 0)], flit(eq(b, 159)))
+    print("bit tests ok")
+
+if __name__ == "__main__":
+    test_bits()
